@@ -3,7 +3,7 @@
 Metamorphic check on the real rdflib SPARQL engine plus correspondence with the Lean model.
 
 Case (JSON):
-  {"stream": "rewrite" | "init" | "prepared" | "store" | "bgp" | "frag",
+  {"stream": "rewrite" | "init" | "prepared" | "store" | "bgp" | "frag" | "sel" | "nsctx" | "td",
    "data":  [[s,p,o,g] …]           term keys (see TERMS); g = 0 default graph, 1..3 named graphs
    "data2": [[s,p,o,g] …]           second data set (prepared stream)
    "ds":    bool                    evaluate over a Dataset (needed for GRAPH)
@@ -19,7 +19,12 @@ viol  = two evaluations that the property says must agree differ as multisets of
 obs   = (bgp / frag streams) the bag of solutions as rows of term numbers, compared with the Lean model:
         `RV.C15.evalBGP` in the written order, in a permuted order and through the model of
         reorderTriples + the dynamic sort of evalPart, on each store model; `RV.C15.evalQS` (the prepared
-        tree with its mutable `ctx` fields) for fragment queries, run repeatedly on data / data2.
+        tree with its mutable `ctx` fields) for fragment queries, run repeatedly on data / data2;
+        (td stream) `RV.C15.evalSelectTD` — the TOP-DOWN evaluator (evalPart with pushed bindings: lazy / non-lazy
+        joins, OPTIONAL with its re-check, MINUS, FILTER, BIND, GRAPH, VALUES, `_vars`, forget / remember / thaw)
+        — on the algebra this module derives from the AST by its own copy of translateGroupGraphPattern + simplify,
+        with and without initBindings, over a Graph or a Dataset with named graphs; for the `tails` shape
+        (B0, then OPTIONAL / UNION elements) both the initBindings form and the VALUES form.
 """
 import random
 import re
@@ -51,6 +56,8 @@ RULE = ("random SELECT queries (BGPs of 1-4 patterns over <=4 variables, joins o
 ASSUMPTIONS = [
     "pyparsing turns the query text into the parse tree the translator expects (queries enter the Lean model as ASTs)",
     "property-path predicates are covered by the metamorphic streams only (the Lean BGP model has plain predicates)",
+    "td stream: the algebra tree handed to the Lean top-down evaluator is built by this module's own transcription of "
+    "translateGroupGraphPattern / simplify (_td_alg); `_vars`, `lazy` and the triple order are computed by the model",
     "C01: each in-memory store holds the set of triples added to it",
 ]
 TRUSTED = ["harness/c15.py generators, rewriters and canonicalisation", "lean/RV/C15/Drive.lean line protocol"]
@@ -1699,6 +1706,13 @@ def run_impl(case):
             stats["td_nonempty"] = 1
         if a[0] == "err":
             stats["td_error"] = 1
+        # the same data behind another store (`td_store_irrelevant`)
+        kind = rng.choice(["aud", "simple"] if not ds else ["aud"])
+        c2 = evaluate(build(data, kind, ds, order_seed=seed), q, init=ib)
+        compared += 1
+        if c2 != a:
+            viol.append("store-%s: the top-down fragment query over %s gives %s, over Memory %s"
+                        % (kind, kind, _short(c2), _short(a)))
         if case.get("tails"):
             # the VALUES form (row at the end of the group, no initBindings): `initbindings_values_td`
             qv = _copy(q)
